@@ -109,6 +109,10 @@ def cases(tier: str, seed: int) -> List[Dict[str, Any]]:
                     out.append({"kind": "depth", "form": form, "n": n, "history": hist})
             if form != "TransformerStack":
                 out.append({"kind": "depth", "form": form, "n": n, "frozen": True})
+            if form == "DepthModuleList":
+                # any Iterable[nn.Module] is a valid argument (as for nn.ModuleList): one-shot iterators included
+                for cont in ("generator", "tuple", "iter", "map"):
+                    out.append({"kind": "depth", "form": form, "n": n, "container": cont})
     for opt in _prod({"hidden": [8], "heads": [1, 2, 4], "is_causal": [False, True], "dropout_p": [0.0, 0.5],
                       "mult": [1.0, 0.25, 3.0], "train": [True, False]}):
         out.append({"kind": "mhsa", "opt": opt, "seed": seed})
@@ -463,7 +467,14 @@ def _depth(case: Dict[str, Any]) -> Dict[str, Any]:
         for p_ in mods[0].parameters():  # a layer frozen BEFORE the container is built
             p_.requires_grad_(False)
     if form == "DepthModuleList":
-        c: Any = uu.DepthModuleList(mods)
+        cont = case.get("container", "list")
+        if cont != "list":
+            ident += f"|from_{cont}"
+        arg: Any = {"list": lambda: mods, "generator": lambda: (m for m in mods), "tuple": lambda: tuple(mods),
+                    "iter": lambda: iter(mods), "map": lambda: map(lambda m: m, mods)}[cont]()
+        c: Any = uu.DepthModuleList(arg)
+        if [id(m) for m in c] != [id(m) for m in mods]:
+            viol.append({"key": ident + "|layers_lost_or_reordered", "msg": f"{len(c)} layers registered for {n} given (nn.ModuleList keeps all)"})
     elif form == "DepthSequential":
         c = uu.DepthSequential(*mods)
     elif form == "DepthSequential_dict":
